@@ -1082,7 +1082,8 @@ func (f *frame) unbox(n *node, iv Val, t types.Type) Val {
 		return iv.Bind[0]
 	}
 	if pointerLike(t) {
-		return Val{T: t, C: []string{iv.C[1]}}
+		// a pointer taken out of an old interface value is followed in the old state
+		return Val{T: t, C: []string{iv.C[1]}, Old: iv.Old}
 	}
 	key := "box:" + typeKey(t)
 	h := n.heap
